@@ -692,8 +692,20 @@ class CourierClient(metaclass=func_utils.SingletonMeta):
       if not self.is_alive:
         raise RuntimeError(f'Worker disconnected: {self}')
       time.sleep(0)
+    return self._result_or_exception(self._transport_result(future))
+
+  def _transport_result(self, future: futures.Future[bytes]) -> bytes:
+    """Returns the payload of a finished call, translates transport errors.
+
+    Only errors of the transport are inspected here: an exception raised by the
+    remote expression travels inside the payload and may carry any attributes
+    (e.g. `code == 4`) without being mistaken for a deadline.
+
+    Args:
+      future: The finished future of a courier call.
+    """
     try:
-      return self._result_or_exception(future.result())
+      return future.result()
     except Exception as e:  # pylint: disable=broad-exception-caught
       if is_timeout(e):
         if self.is_alive:
@@ -710,17 +722,11 @@ class CourierClient(metaclass=func_utils.SingletonMeta):
       if not self.is_alive:
         raise RuntimeError(f'Async worker disconnected: {self}')
       await asyncio.sleep(0)
+    pickled = self._transport_result(future)
     try:
-      return self._result_or_exception(future.result())
+      return self._result_or_exception(pickled)
     except StopIteration as e:
       raise StopAsyncIteration(*e.args) from e
-    except Exception as e:  # pylint: disable=broad-exception-caught
-      if is_timeout(e):
-        if self.is_alive:
-          raise TimeoutError(f'Try longer timeout on {self}') from e
-        else:
-          e.add_note(f'Courier worker {self} died.')
-      raise e
 
   def submit(self, task: Task[_T] | types.Resolvable[_T]) -> Task[_T]:
     """Runs tasks sequentially and returns the task."""
